@@ -274,14 +274,21 @@ impl GenCfg {
         GenCfg {
             std_roots: r.chance(3, 4),
             n_terms: if big { r.urange(60, 300) } else if r.chance(1, 3) { r.urange(2, 8) } else { r.urange(4, 40) },
-            shape: r.below(5) as u8,
+            shape: if r.chance(1, 12) { 5 } else { r.below(5) as u8 },
             extra_roots: r.chance(1, 3),
             redundant_edges: r.chance(1, 2),
             obsolete: r.chance(1, 2),
             id_corr: r.below(3) as u8,
             id_space: r.below(3) as u8,
             names: r.below(4) as u8,
-            max_recs: [r.usize_below(12), r.usize_below(10), r.usize_below(8)],
+            max_recs: {
+                let mut m = [r.usize_below(12), r.usize_below(10), r.usize_below(8)];
+                if r.chance(1, 60) {
+                    // more than 255 / 256 records of one kind
+                    m[r.usize_below(3)] = r.urange(250, 300);
+                }
+                m
+            },
             rec_no_terms: r.chance(1, 3),
             text_safe: true,
             cap_paths: true,
@@ -462,6 +469,20 @@ pub fn gen_facts(r: &mut Prng, cfg: &GenCfg) -> FactSet {
                     }
                 }
             }
+            5 => {
+                // wide: a fan of siblings under one node, then terms with very many direct parents
+                // (more than the 30 ids a group stores inline)
+                let k = i - body_start;
+                let fan = ((n - body_start) / 2).max(1);
+                if k < fan {
+                    parents[i].insert(if body_start > 0 { body_start - 1 } else { 0 }.min(i - 1));
+                } else {
+                    let np = r.urange(2, fan.min(45));
+                    for _ in 0..np {
+                        parents[i].insert(body_start + r.usize_below(fan));
+                    }
+                }
+            }
             _ => {
                 let np = r.urange(1, 3);
                 for _ in 0..np {
@@ -604,7 +625,7 @@ pub fn gen_facts(r: &mut Prng, cfg: &GenCfg) -> FactSet {
 
     // annotations
     let mk_recs = |r: &mut Prng, kind: Kind, maxn: usize| -> Vec<Rec> {
-        let nrec = if maxn == 0 { 0 } else { r.urange(0, maxn) };
+        let nrec = if maxn == 0 { 0 } else if maxn >= 40 { r.urange(maxn * 3 / 4, maxn) } else { r.urange(0, maxn) };
         let mut idset: BTreeSet<u32> = BTreeSet::new();
         while idset.len() < nrec {
             // deliberately overlapping numeric ids across kinds
